@@ -165,6 +165,7 @@ def m_pcursor_read(ex, a, callee, canon):
             if not hasattr(ex, "len_vars"):
                 ex.len_vars = {}
             ex.len_vars[atom.get_id()] = L
+            ex.__dict__.setdefault("_keep_alive", []).append(atom)   # ids key the table: the term must stay alive
             tgt.set(Bytes(atom))
             return ok(Int(L, "usize"))
     raise Unsupported("variable-size read that is not exactly the next opaque byte string (declared size differs from the script's length): outside the well-formed-input query")
@@ -220,4 +221,5 @@ def m_from_elem_parse(ex, a, callee, canon):
     if not hasattr(ex, "len_vars"):
         ex.len_vars = {}
     ex.len_vars[s.get_id()] = n.t
+    ex.__dict__.setdefault("_keep_alive", []).append(s)   # ids key the table: the term must stay alive
     return Bytes(s)
